@@ -256,7 +256,7 @@ func TestC06(t *testing.T) {
 			ev := r.Ev
 			// many references to one label (more than a byte-sized or 16-entry structure holds), before and after its definition
 			if rig.Shard() == 0 {
-				for _, n := range []int{15, 16, 17, 63, 255, 256, 257, 300, 1000} {
+				for _, n := range []int{15, 16, 17, 63, 108, 118, 128, 236, 246, 255, 256, 257, 300, 492, 512, 1000} { // (with the branches: 128, 256 and 512 references in all)
 					for _, labelFirst := range []bool{false, true} {
 						var ops []asmcat.Op
 						if labelFirst {
